@@ -7,7 +7,7 @@
    model is a crash/throw of the code: update() while locked, thread id beyond the buffers). *)
 Require Import Coq.Lists.List Coq.NArith.NArith.
 From Mustache Require Import Res Skeleton SkelSpec SkelRun.
-From Mustache.proofs Require Import SkelInv SkelRefine SkelMain.
+From Mustache.proofs Require Import SkelInv SkelRefine SkelMain SkelTotal.
 Import ListNotations.
 
 Theorem C01_validity_is_liveness : forall n ops s hs,
@@ -43,3 +43,27 @@ Example C01_nonvacuous :
                        SoUnlock; SoCreate 0 1; SoUpdate; SoClearArch 2; SoCreate 0 2]%N = Ok (s, hs)
                /\ (N.of_nat (length hs) < 16777000)%N /\ map (is_valid s) hs = [false; false; false; false; true; true].
 Proof. eexists. eexists. split; [vm_compute; reflexivity|]. split; vm_compute; reflexivity. Qed.
+
+(* the model run never ends in Err inside the contract, so the theorems above are not vacuous anywhere in it.
+   Contract (proofs/SkelTotal.v: in_contract, op_ok), judged in the specification state reached by each prefix:
+   update() only while not locked; create / destroy / destroyNow issued while locked use a thread id < n (the number
+   of command buffers).  bounded: the script issues fewer than 16 777 000 handles. *)
+Theorem C01_model_run_total : forall n ops,
+  in_contract n ops -> bounded ops -> exists s hs, srun n ops = Ok (s, hs).
+Proof. exact srun_total. Qed.
+Print Assumptions C01_model_run_total.
+
+(* ... and the run that exists is related to the specification *)
+Theorem C01_model_run_total_refines : forall n ops,
+  in_contract n ops -> bounded ops -> exists s hs, srun n ops = Ok (s, hs) /\ R s hs (spec_run n ops).
+Proof. exact srun_total_refines. Qed.
+Print Assumptions C01_model_run_total_refines.
+
+(* the contract is satisfiable on a script with nested locks, several threads, recycled ids and clearArchetype under lock;
+   each clause is necessary (outside it the model returns Err) *)
+Example C01_contract_nonvacuous : in_contract 4 demo_script /\ bounded demo_script.
+Proof. exact srun_total_nonvacuous. Qed.
+Example C01_update_while_locked_errs : srun 4 [SoLock; SoUpdate] = Err (Throw 2).
+Proof. exact update_while_locked_errs. Qed.
+Example C01_tid_beyond_buffers_errs : srun 4 [SoLock; SoDestroy 4 0] = Err OobIndex.
+Proof. exact tid_beyond_buffers_errs. Qed.
